@@ -89,6 +89,12 @@ def takeAmount : Side → Int → Int → Int → Int
   | .client, a, mb, mf => clientTake a mb mf
   | .server, a, mb, mf => serverTake a mb mf
 
+/-- is stream `j` still in the connection's stream table?  The server drops a stream as soon as its response body is
+complete (`MStream.WriteTrailers` → `closeStream`), so later WINDOW_UPDATE / SETTINGS no longer touch its window; the
+client keeps it until the response ends (not modelled: it stays). -/
+def tracked (s : St) (j : Nat) : Bool :=
+  decide (j < s.count) && !(s.side == Side.server && (s.strm j).rem == 0)
+
 /-- one pass of the sender loop for stream `i` (no-op when it would block in `cond.Wait`, when the body is done,
 or when the connection is closed) -/
 def sendStep (s : St) (i : Nat) : St :=
@@ -114,7 +120,8 @@ def step (s : St) : Label → St
              trace := s.trace ++ [Obs.opened] }
   | .wuStream i inc =>
     if s.closed || s.panicked then s else
-    if s.count ≤ i then { s with trace := s.trace ++ [Obs.wuS i inc] }       -- unknown stream: frame ignored
+    if s.count ≤ i then { s with trace := s.trace ++ [Obs.wuS i inc] }   -- unknown stream (`st == nil`): frame ignored
+    else if !(tracked s i) then { s with trace := s.trace ++ [Obs.wuS i inc] }   -- closed stream: frame ignored
     else
       let st := s.strm i
       let r := add st.n (wrap32 inc)
@@ -130,8 +137,8 @@ def step (s : St) : Label → St
     if maxInt32 < (v : Int) then { s with closed := true, trace := s.trace ++ [Obs.sInit v, Obs.connError] }
     else
       let delta := wrap32 (wrap32 v - wrap32 s.init)
-      let anyFail := (List.range s.count).any (fun j => !(add (s.strm j).n delta).2)
-      let strm' := fun j => if j < s.count then { s.strm j with n := (add (s.strm j).n delta).1 } else s.strm j
+      let anyFail := (List.range s.count).any (fun j => tracked s j && !(add (s.strm j).n delta).2)
+      let strm' := fun j => if tracked s j then { s.strm j with n := (add (s.strm j).n delta).1 } else s.strm j
       match s.side with
       | .client =>   -- result of add ignored (mhttp2.go MClientConn.processSettings)
         { s with strm := strm', init := v, trace := s.trace ++ [Obs.sInit v] }
@@ -192,7 +199,7 @@ def peerStep (p : Peer) : Obs → Peer
     if i < p.count then
       { p with w := updW p.w i (p.w i + inc),
                conformant := p.conformant && decide (1 ≤ inc) && decide (p.w i + inc ≤ 2147483647) }
-    else { p with conformant := p.conformant && decide (1 ≤ inc) && decide (inc ≤ 2147483647) }
+    else { p with conformant := false }   -- WINDOW_UPDATE on an idle stream (RFC 7540 §5.1): the peer's protocol error
   | .wuC inc =>
     { p with connW := p.connW + inc, conformant := p.conformant && decide (1 ≤ inc) && decide (p.connW + inc ≤ 2147483647) }
   | .sInit v =>
